@@ -1,9 +1,15 @@
 #!/bin/bash
-# usage: tools/evalseed.sh ID [seeds...]  - runs the check of ID against the scratch worktree /tmp/mut/ID for several seeds
+# usage: tools/evalseed.sh ID [seeds...]  - runs the check of ID against the scratch worktree /tmp/mut/ID for several seeds;
+# with ADD_CORPUS=<label> the failing inputs found are added to the regression corpus (after validation on the clean tree)
 ID=$1; shift; seeds=${@:-0 1 2}
 cd /verif
 for sd in $seeds; do
   out=$(TDDA_REPO=/tmp/mut/$ID VERIF_SEED=$sd /venv/bin/python harness/vcheck.py $ID --tier quick 2>&1 | grep "^VIOLATION\|^$ID quick\|BROKEN" | tr '\n' ' ')
   echo "seed $sd: ${out:0:330}"
+  if [ -n "$ADD_CORPUS" ] && [[ "$out" == *VIOLATION* ]] && [[ "$out" != *no-failing-input-found* ]]; then
+    cp replays/${ID}_quick_$sd.json /tmp/evalseed_replay_$ID.json
+    /venv/bin/python tools/addcorpus.py $ID /tmp/evalseed_replay_$ID.json "$ADD_CORPUS" 3 2>&1 | grep -v "^Warn" | tail -3
+    rm -f /tmp/evalseed_replay_$ID.json
+  fi
 done
 (cd /verif/harness && /venv/bin/python translate.py >/dev/null 2>&1)
